@@ -176,7 +176,8 @@ detail::temporary_allocator_dtor_t::temporary_allocator_dtor_t() noexcept
 detail::temporary_allocator_dtor_t::~temporary_allocator_dtor_t() noexcept
 {
     FOONATHAN_MEMORY_VERIF_POINT(12, temp_stack);
-    if (--nifty_counter == 0u && temp_stack)
+    // destroy the stacks even if this thread never had one: other threads may have created some
+    if (--nifty_counter == 0u)
         temporary_stack_list_obj.destroy();
 }
 
